@@ -596,7 +596,8 @@ def _loader(repo, rep):
               "first colon into package and path (%d places)" % len(cuts),
               construct="package-cut-first-colon", where=L.where(ld_),
               detail="; ".join(cdetail))
-    tests = [n.test for n in ast.walk(ld_.node) if isinstance(n, ast.If)
+    tests = [L._CanonIf._pos(n.test)[0] for n in ast.walk(ld_.node)
+             if isinstance(n, ast.If)
              and "isabs(path)" in src(n.test) and "':' in path" in src(
                  n.test)]
     okt = bool(tests) and all(
